@@ -1,3 +1,186 @@
 import Driver.Common
-/- stub: model driver for C17 not built yet -/
-def main : IO Unit := Driver.lineLoop (fun _ => "unimplemented")
+import ThriftVerif.Lib.Dump
+import ThriftVerif.Generated.C17
+
+/-! model driver for C17: one op per line (see harness/cmd/c17). -/
+namespace Driver.C17
+open Dump
+
+abbrev P := StateT (List String × List (Nat × Bytes)) Option
+
+def tok : P String := do
+  let (ts, fl) ← get
+  match ts with
+  | [] => failure
+  | t :: r => set (r, fl); pure t
+
+def pNat : P Nat := do
+  let t ← tok
+  match t.toNat? with
+  | some n => pure n
+  | none => failure
+
+def pInt : P Int := do
+  let t ← tok
+  match t.toInt? with
+  | some n => pure n
+  | none => failure
+
+def pBytes : P Bytes := do
+  let t ← tok
+  match VL.hexDecode t with
+  | some b => pure b
+  | none => failure
+
+partial def pMany {α} (p : P α) : P (List α) := do
+  let n ← pNat
+  let rec go (k : Nat) (acc : List α) : P (List α) :=
+    if k = 0 then pure acc.reverse else do
+      let x ← p
+      go (k - 1) (x :: acc)
+  go n []
+
+def pAnn : P Ann := do
+  let k ← pBytes
+  let vs ← pMany pBytes
+  pure ⟨k, vs⟩
+
+def pAnns : P (List Ann) := pMany pAnn
+
+partial def pTy : P Ty := do
+  let name ← pBytes
+  let hk ← pNat
+  let k ← if hk = 1 then some <$> pTy else pure none
+  let hv ← pNat
+  let v ← if hv = 1 then some <$> pTy else pure none
+  let a ← pAnns
+  pure (.mk name k v a)
+
+partial def pCV : P CV := do
+  let t ← tok
+  match t with
+  | "D" => do
+    let bits ← pNat
+    let txt ← pBytes
+    modify fun (ts, fl) => (ts, (bits, txt) :: fl)
+    pure (.dbl bits)
+  | "I" => .int <$> pInt
+  | "L" => .lit <$> pBytes
+  | "X" => .ident <$> pBytes
+  | "S" => .list <$> pMany pCV
+  | "M" => .map <$> pMany (do let k ← pCV; let v ← pCV; pure (k, v))
+  | "Z" => pure .unset
+  | _ => failure
+
+def pField : P Field := do
+  let cm ← pBytes
+  let id ← pInt
+  let req ← pNat
+  let ty ← pTy
+  let name ← pBytes
+  let hd ← pNat
+  let d ← if hd = 1 then some <$> pCV else pure none
+  let a ← pAnns
+  pure { comment := cm, id := id, req := req, ty := ty, name := name, dflt := d, anns := a }
+
+def pStructLike : P StructLike := do
+  let cm ← pBytes
+  let name ← pBytes
+  let fs ← pMany pField
+  let a ← pAnns
+  pure ⟨cm, name, fs, a⟩
+
+def pFunction : P Function := do
+  let cm ← pBytes
+  let ow ← pNat
+  let ty ← pTy
+  let name ← pBytes
+  let args ← pMany pField
+  let thr ← pMany pField
+  let a ← pAnns
+  pure ⟨cm, ow = 1, ty, name, args, thr, a⟩
+
+def pFile : P File := do
+  let incs ← pMany pBytes
+  let nss ← pMany (do let l ← pBytes; let n ← pBytes; let a ← pAnns; pure (⟨l, n, a⟩ : Namespace))
+  let cpps ← pMany pBytes
+  let tds ← pMany (do let c ← pBytes; let t ← pTy; let al ← pBytes; let a ← pAnns; pure (⟨c, t, al, a⟩ : Typedef))
+  let cs ← pMany (do let c ← pBytes; let t ← pTy; let n ← pBytes; let v ← pCV; let a ← pAnns; pure (⟨c, t, n, v, a⟩ : Const))
+  let es ← pMany (do
+    let c ← pBytes; let n ← pBytes
+    let vs ← pMany (do let c ← pBytes; let n ← pBytes; let v ← pInt; let a ← pAnns; pure (⟨c, n, v, a⟩ : EnumValue))
+    let a ← pAnns
+    pure (⟨c, n, vs, a⟩ : Enum))
+  let ss ← pMany pStructLike
+  let us ← pMany pStructLike
+  let xs ← pMany pStructLike
+  let svcs ← pMany (do
+    let c ← pBytes; let n ← pBytes; let e ← pBytes
+    let fs ← pMany pFunction
+    let a ← pAnns
+    pure (⟨c, n, e, fs, a⟩ : Service))
+  pure ⟨incs, nss, cpps, tds, cs, es, ss, us, xs, svcs⟩
+
+def lookupFF (fl : List (Nat × Bytes)) (b : Nat) : Bytes :=
+  match fl.find? (fun p => p.1 = b) with
+  | some p => p.2
+  | none => []
+
+def cfg := Generated.C17.cfg
+
+/-- what may follow a constant value on its line for the definition to be a complete `Const`:
+    `Indent* ([,;] Indent*)? (UnixComment)?` -/
+def restOk (r : Bytes) : Bool :=
+  let r1 := r.dropWhile (fun c => c = 32 || c = 9)
+  let r2 := match r1 with
+    | 44 :: t => t.dropWhile (fun c => c = 32 || c = 9)
+    | 59 :: t => t.dropWhile (fun c => c = 32 || c = 9)
+    | _ => r1
+  match r2 with
+  | [] => true
+  | 35 :: _ => true
+  | _ => false
+
+def annsStr (l : List Ann) : String :=
+  " ".intercalate (l.map fun a => VL.hexEncode a.key ++ "=" ++ ",".intercalate (a.vals.map VL.hexEncode))
+
+partial def pPairs : P (List (Bytes × Bytes)) := pMany (do let k ← pBytes; let v ← pBytes; pure (k, v))
+
+def handleLine (line : String) : String :=
+  match VL.toks line with
+  | "F" :: _ :: rest =>
+    match pFile.run (rest, []) with
+    | some (f, ([], fl)) => "ok " ++ VL.hexEncode (dump cfg (lookupFF fl) f)
+    | _ => "bad-op"
+  | ["R", h] =>
+    match VL.hexDecode h with
+    | none => "bad-op"
+    | some s =>
+      match readLiteral (s.dropWhile (fun c => c = 32 || c = 9)) with
+      | some (v, r) => if restOk r then "ok " ++ VL.hexEncode v else "other"
+      | none => "other"
+  | ["N", h, bits] =>
+    match VL.hexDecode h, bits.toNat? with
+    | some s, some b =>
+      let (n, r) := readNumber (fun _ => b) (s.dropWhile (fun c => c = 32 || c = 9))
+      if !restOk r then "other" else
+      match n with
+      | .int i => s!"int {i}"
+      | .dbl b => s!"dbl {b}"
+      | .err => "err"
+      | .exp => "exp"
+      | .nolex => "other"
+    | _, _ => "bad-op"
+  | "A" :: rest =>
+    match pPairs.run (rest, []) with
+    | some (ps, ([], _)) => "ok " ++ annsStr (annRegroup ps)
+    | _ => "bad-op"
+  | ["U", h] =>
+    match VL.hexDecode h with
+    | some s => "ok " ++ VL.hexEncode (htmlUnescape s)
+    | none => "bad-op"
+  | _ => "bad-op"
+
+end Driver.C17
+
+def main : IO Unit := Driver.lineLoop Driver.C17.handleLine
